@@ -747,14 +747,28 @@ pub fn decode_ipc(bytes: &[u8]) -> Result<Vec<RecordBatch>> {
 /// repeated, ended by a zero metadata length.
 fn check_ipc_framing(bytes: &[u8]) -> Result<()> {
     let corrupt = |what: &str| QueryError::Execution(format!("fragment result is corrupt: {what}"));
+    // `encode_ipc` always finishes its stream, so a payload that runs out
+    // before the end-of-stream marker was cut short — possibly exactly at a
+    // message boundary, where the Arrow reader would see a shorter but
+    // perfectly valid stream and the merge would produce a partial answer.
+    let truncated = || {
+        QueryError::Execution(
+            "fragment result is truncated: the Arrow IPC stream ends before its \
+             end-of-stream marker"
+                .into(),
+        )
+    };
     let mut pos = 0usize;
-    while pos + 4 <= bytes.len() {
+    loop {
+        if pos + 4 > bytes.len() {
+            return Err(truncated());
+        }
         let mut word = [0u8; 4];
         word.copy_from_slice(&bytes[pos..pos + 4]);
         pos += 4;
         if word == [0xFF; 4] {
             if pos + 4 > bytes.len() {
-                return Ok(()); // cut inside the prefix: the reader reports it
+                return Err(truncated());
             }
             word.copy_from_slice(&bytes[pos..pos + 4]);
             pos += 4;
@@ -776,24 +790,14 @@ fn check_ipc_framing(bytes: &[u8]) -> Result<()> {
         }
         pos += body as usize;
     }
-    Ok(())
 }
 
 fn decode_ipc_checked(bytes: &[u8]) -> Result<Vec<RecordBatch>> {
-    let mut reader = arrow::ipc::reader::StreamReader::try_new(std::io::Cursor::new(bytes), None)?;
+    let reader = arrow::ipc::reader::StreamReader::try_new(std::io::Cursor::new(bytes), None)?;
     let schema = reader.schema();
     let mut out = Vec::new();
-    for b in reader.by_ref() {
+    for b in reader {
         out.push(b?);
-    }
-    // A stream cut exactly at a message boundary reads as a shorter, perfectly
-    // valid stream. Only the end-of-stream marker the writer's `finish()`
-    // emits proves the payload is complete; without it this is a truncated
-    // fragment answer, and merging it would be a partial answer.
-    if !reader.is_finished() {
-        return Err(QueryError::Execution(
-            "fragment result is truncated: the Arrow IPC stream has no end-of-stream marker".into(),
-        ));
     }
     if out.is_empty() {
         out.push(RecordBatch::new_empty(schema));
